@@ -238,6 +238,9 @@ def run_networkdays(shard, ctx):
     for li, lay in enumerate(HOL_LAYOUTS):
         cells = {'A4': dt.datetime(2024, 1, 1), 'B4': dt.datetime(2024, 1, 31), 'C4': '=NETWORKDAYS(A4,B4)',
                  'D4': '=NETWORKDAYS(A4,B4,H1:H12)', 'E4': '=NETWORKDAYS(A4;B4;H1:I12)', 'F4': '=NETWORKDAYS(A4,B4,H:H)', 'G4': '=NETWORKDAYS(A4,B4,$H:$I)',
+                 # a second interval over the SAME holiday range, asked in one evaluation together with the first one
+                 'A5': dt.datetime(2024, 2, 1), 'B5': dt.datetime(2024, 2, 29), 'C5': '=NETWORKDAYS(A5,B5,H1:H12)', 'D5': '=D4+C5',
+                 'E5': '=NETWORKDAYS(A4,B4,H1:H12)+NETWORKDAYS(A5,B5,H1:H12)', 'F5': '=NETWORKDAYS(A5,B5,H:H)+NETWORKDAYS(A4,B4,H:H)',
                  'A12': 0}      # A12 keeps the used range at 12 rows whatever the holiday layout: H:H always has 12 rows
         for k, v in lay.items():
             cells[f'H{k}'] = v
@@ -275,11 +278,18 @@ def run_networkdays(shard, ctx):
                 hol_now = [v for k, v in lay.items() if isinstance(v, dt.datetime) and k != row_] + [extra]
                 hol2_now = hol_now + [dt.datetime(2024, 1, 2)]
                 r.count('networkdays_holiday_overrides')
-            outs = book.values(0, ['C4', 'D4', 'E4', 'F4', 'G4'], ov)
-            r.ev(5)
+            # the second interval: disjoint from, overlapping with or containing the first one
+            a2 = a + dt.timedelta(days=rng.choice([-40, -7, 3, 20, 45]))
+            a2 = dt.datetime(a2.year, a2.month, a2.day)
+            b2 = a2 + dt.timedelta(days=rng.choice([0, 4, 9, 30, 70]))
+            ov += [(0, 'A5', a2), (0, 'B5', b2)]
+            outs = book.values(0, ['C4', 'D4', 'E4', 'F4', 'G4', 'D5', 'E5', 'F5'], ov)
+            r.ev(8)
+            r.count('networkdays_two_intervals_one_holiday_range', 3)
+            n1, n2 = evalr.networkdays(a, b, hol_now), evalr.networkdays(a2, b2, hol_now)
             exps = (evalr.networkdays(a, b, []), evalr.networkdays(a, b, hol_now), evalr.networkdays(a, b, hol2_now), evalr.networkdays(a, b, hol_now),
-                    evalr.networkdays(a, b, hol2_now))
-            bad = [(c, o.brief(), e) for c, o, e in zip(('2 args', 'H1:H12', 'H1:I12', 'H:H', '$H:$I'), outs, exps) if not outcome_matches(o, [e])]
+                    evalr.networkdays(a, b, hol2_now), n1 + n2, n1 + n2, n1 + n2)
+            bad = [(c, o.brief(), e) for c, o, e in zip(('2 args', 'H1:H12', 'H1:I12', 'H:H', '$H:$I', 'D4+C5', 'two calls H1:H12', 'two calls H:H'), outs, exps) if not outcome_matches(o, [e])]
             if bad:
                 report(r, ID, None, {'fn': 'NETWORKDAYS', 'start': a, 'end': b, 'layout': li}, bad, None, monitor='calendar-closed-form')
             if abs((b - a).days) >= 5:
